@@ -324,6 +324,11 @@ def run(ctx: Ctx):
                          "have refused (and closed) the connection")
                 break
     closed_connections_are_removed(ctx, "C18-R4b")
+    from . import c14
+    ctx.include(c14.run, {"C14-R4"}, "C18-R1c",
+                "stop() and the functions it calls iterate snapshots of the tables that other "
+                "threads resize meanwhile (an exception there leaves the remaining applications "
+                "running)", floor=6, constructs=lambda c: "stop" in c.lower())
     from . import c12
     ctx.include(c12.run, {"C12-R1", "C12-R5"}, "C18-R5",
                 "the DPR/DPA exchange of a shutdown: send_dpr marks DISCONNECTING, a DPA always "
